@@ -454,12 +454,16 @@ pub fn check(tier: Tier) -> Outcome {
         cells.push(json!({"regime": "sink", "size": size, "chunk": 1, "flen": 0, "depth": 2, "big_ops": ["add", "remove1", "remove_size"]}));
     }
     // long streams (buffered-reader boundaries, large counts) and bulk sinks (more pieces than one vectored write takes)
-    for chunk in [3u64, 7, 1000, 1428, 4096, 5000] {
+    for chunk in [1u64, 3, 7, 1000, 1428, 4096, 5000] {
         for size in [1u64, 4] {
             for flen in [8191u64, 8192, 8193, 20000, 70000] {
                 cells.push(json!({"regime": "stream", "size": size, "chunk": chunk, "flen": flen}));
             }
         }
+    }
+    // more than 65536 chunks handed out from one file (a 16-bit chunk counter would wrap)
+    for size in [1u64, 4] {
+        cells.push(json!({"regime": "stream", "size": size, "chunk": 3, "flen": 200_000}));
     }
     for pieces in [1023u64, 1024, 1025, 3000, 65535] {
         cells.push(json!({"regime": "bulk", "size": 65535, "chunk": 2, "pieces": pieces}));
